@@ -299,6 +299,7 @@ class Model(ABC):
                     "vectorisation will be disabled."
                 )
                 self.allow_vectorised = False
+                self.allow_vectorised_prior = False
             elif n_pool:
                 self.n_pool = n_pool
                 logger.debug(f"User pool has {n_pool} processes")
